@@ -4821,12 +4821,12 @@ class ParseCtx:
         type_obj = decl.children[0]
         name = decl.children[1].value
         if len(decl.children) == 3:
-            if type_obj.data not in ["str_type", "unterm_str_type"]:
+            if type_obj.data == "raw_type":
+                raise IllegalParseTree("Default values are not allowed for raw types, set them manually if necessary.", decl.children[2])
+            elif type_obj.data not in ["str_type", "unterm_str_type"]:
                 default_value = self._parse_integer_expr(decl.children[2])
                 if not default_value.is_literal():
                     raise IllegalParseTree("Default value for out-decl must be constant", decl.children[2])
-            elif type_obj.data == "raw_type":
-                raise IllegalParseTree("Default values are not allowed for raw types, set them manually if necessary.", decl.children[2])
             else:
                 if decl.children[2].data == "string_const":
                     default_value = self._convert_string(decl.children[2].children[0].value)
